@@ -82,7 +82,8 @@ def run(ctx):
     ctx.floor("R09.2", "default has_passed", len(hp), 1)
     for f in hp:
         r = f.origin_local(0)
-        ok = (r[0] == "call" and r[1].endswith("PartialOrd::gt") and is_call_to(r[2][0], "Clock::now") and r[2][0][2][0] == ("param", 1) and r[2][1] == ("param", 2))
+        le = r[2] if r[0] == "unop" and r[1] == "Not" else None
+        ok = (le is not None and le[0] == "call" and le[1].endswith("PartialOrd::le") and is_call_to(le[2][0], "Clock::now") and le[2][0][2][0] == ("param", 1) and le[2][1] == ("param", 2))
         ctx.check(ok, "R09.2", "%s|strictly-after" % f.name, "the default has_passed(t) is now() > t (an entry is still served at its exact expiry instant)", f.where(), fmt(r))
     # ---- R09.3 expiry = clock.now() + ttl ----------------------------------------------------------
     calc = []
@@ -214,24 +215,22 @@ def run(ctx):
             ctx._add(o["status"], "R09.8", o["key"].split("|", 1)[1], o["desc"], o["where"], o["detail"])
 
     # ---- R09.6 boundary agreement --------------------------------------------------------------------------
-    sweeps = []
-    for n, f in F.fns.items():
-        if f.kind == "Closure" and f.rec.get("ret") is None:
-            r = f.origin_local(0)
-            members = r[1] if r[0] == "phi" else (r,)
-            if any(m[0] == "call" and m[1].endswith(("PartialOrd::le", "PartialOrd::lt", "PartialOrd::ge", "PartialOrd::gt")) for m in members) and f.argc == 3:
-                sweeps.append((f, members))
+    from tickermodel import TickerModel
+    from c10 import retain_table
+    T = TickerModel(ctx)
+    sweeps = [F.fn(o["args"][0][1]) for o in T.ops if o["kind"] == "retain" and o["args"][0][0] == "agg" and F.fn(o["args"][0][1]) is not None]
     ctx.floor("R09.6", "sweeper retain predicates", len(sweeps), 1)
-    for f, members in sweeps:
-        m = [m for m in members if m[0] == "call"][0]
-        ok = m[1].endswith("PartialOrd::le") and m[2][0] == ("field", ("env",), "now") and m[2][1] == ("param", 3) and len(members) == 1
-        ctx.check(ok, "R09.6", "%s|retain-iff-now-le-expiry" % f.name,
-                  "the sweeper keeps an entry iff now <= expiry, i.e. evicts iff now > expiry: the same boundary as has_passed", f.where(), fmt(m))
+    for f in sweeps:
+        rows, bad, nowcap = retain_table(F, f)
+        bad = [b_ for b_ in bad if "hook" not in b_]
+        ctx.check(not bad and {r_[0] for r_ in rows} == {True, False}, "R09.6", "%s|retain-iff-now-le-expiry" % f.name,
+                  "the sweeper keeps an entry iff now <= expiry, i.e. evicts iff now > expiry: the same boundary as has_passed", f.where(), "; ".join(sorted(set(bad))[:3]))
         cc = closure_captures(F, f.name)
         if cc:
-            nowe = cc[1].get("now")
+            nowe = cc[1].get(nowcap or "now")
             ctx.check(nowe is not None and is_call_to(nowe, "Clock::now"), "R09.6", "%s|now-is-clock-now" % f.name,
                       "the sweeper's `now` is read from the clock once per sweep", f.where(), fmt(nowe) if nowe else "")
+
 
 def no_overwrite(ctx, RULE):
     """hooks remove store entries by key: that hits the right incarnation only if a store insert never overwrites
